@@ -15,6 +15,7 @@ package snapshot
 
 import (
 	"bytes"
+	"encoding/json"
 	"fmt"
 	"hash/crc32"
 	"io"
@@ -25,6 +26,7 @@ import (
 
 	"github.com/hashicorp/raft"
 	"github.com/rqlite/rqlite/v10/db"
+	"github.com/rqlite/rqlite/v10/snapshot/plan"
 	"github.com/rqlite/rqlite/v10/snapshot/proto"
 	"github.com/rqlite/rqlite/v10/snapshot/sidecar"
 )
@@ -579,5 +581,209 @@ func TestVerifC12(t *testing.T) {
 		segOps = append(segOps, c.ops)
 		segImpl = append(segImpl, c.impl)
 	}
+	c12Resume(t, rep, vfNewRng(1212), root, &segOps, &segImpl)
 	rep.vfCompareSegments("snapverify", segOps, segImpl)
+}
+
+// c12WritePlan persists the plan reapInternal builds for the store's current content, as if
+// the process had crashed right after plan.WriteToFile (a copy of the plan construction in
+// (*Store).reapInternal; the plan FORMAT and its execution are the real ones).
+func c12WritePlan(t *testing.T, s *Store) bool {
+	snapSet, err := s.getSnapshots()
+	if err != nil {
+		t.Fatal(err)
+	}
+	fullSet, newerSet := snapSet.PartitionAtFull()
+	full, ok := fullSet.Newest()
+	if !ok || snapSet.Len() < 2 {
+		return false
+	}
+	var walFiles []string
+	for _, wf := range full.walFiles {
+		walFiles = append(walFiles, wf.Path)
+	}
+	for _, sn := range newerSet.All() {
+		for _, wf := range sn.walFiles {
+			walFiles = append(walFiles, wf.Path)
+		}
+	}
+	if len(walFiles) == 0 {
+		return false
+	}
+	p := plan.New()
+	dbPath := filepath.Join(full.path, dbfileName)
+	p.AddCheckpoint(dbPath, walFiles)
+	p.AddCalcCRC32(dbPath, dbPath+crcSuffix)
+	for _, sn := range newerSet.All() {
+		p.AddRemoveAll(sn.path)
+	}
+	for _, sn := range snapSet.BeforeID(full.id).All() {
+		p.AddRemoveAll(sn.path)
+	}
+	newest := full
+	if n, ok := newerSet.Newest(); ok {
+		newest = n
+	}
+	newID := snapshotName(newest.raftMeta.Term, newest.raftMeta.Index)
+	nm := copyRaftMeta(newest.raftMeta)
+	nm.ID = newID
+	mj, _ := json.Marshal(nm)
+	p.AddWriteMeta(full.path, mj)
+	p.AddVerifyDB(dbPath)
+	p.AddRename(full.path, filepath.Join(s.dir, newID))
+	if err := plan.WriteToFile(p, s.reapPlanPath); err != nil {
+		t.Fatal(err)
+	}
+	return true
+}
+
+// c12Resume: a reap interrupted by a crash (plan file on disk; none or one of the chain's WAL
+// files already checkpointed), corruption arising while the node is down, then node start
+// (NewStore resumes the plan) and Open+Restore.
+func c12Resume(t *testing.T, rep *vfReport, r *vfRng, root string, segOps, segImpl *[][]string) {
+	n := vfScale(30, 900)
+	for it := 0; it < n; it++ {
+		st := c12BuildStore(t, r, root)
+		var chain []*c12File
+		for _, f := range st.files {
+			if f.chain {
+				chain = append(chain, f)
+			}
+		}
+		if len(chain) < 2 {
+			os.RemoveAll(st.dir)
+			continue
+		}
+		ops := []string{"new"}
+		impl := []string{"ok"}
+		for _, f := range st.files {
+			ops = append(ops, fmt.Sprintf("file %s %d %s %s", c12Kind(f), f.snapNo, vfHexB(f.orig), c12SideTok(f.path)))
+			impl = append(impl, "ok")
+		}
+		s0, err := NewStore(st.dir)
+		if err != nil {
+			t.Fatal(err)
+		}
+		s0.fatalFn = nil
+		okPlan := c12WritePlan(t, s0)
+		s0.Close()
+		if !okPlan {
+			os.RemoveAll(st.dir)
+			continue
+		}
+		consumed := 0
+		dbIdx := 0
+		for i, f := range st.files {
+			if f == chain[0] {
+				dbIdx = i
+			}
+		}
+		if r.Chance(40) {
+			// the interrupted run had already checkpointed the first WAL into the database
+			w := chain[1]
+			if err := os.Rename(w.path, chain[0].path+"-wal"); err != nil {
+				t.Fatal(err)
+			}
+			if err := db.CheckpointRemove(chain[0].path); err != nil {
+				t.Fatal(err)
+			}
+			consumed = 1
+			nb, _ := os.ReadFile(chain[0].path)
+			ops = append(ops, fmt.Sprintf("setc %d %s", dbIdx, vfHexB(nb)))
+			impl = append(impl, "ok")
+			// the consumed WAL no longer exists: drop it from the model's file list by marking it
+			// as not part of the chain is not possible, so the model is given the state directly
+			var ops2, impl2 []string
+			ops2 = append(ops2, "new")
+			impl2 = append(impl2, "ok")
+			for _, f := range st.files {
+				if f == w {
+					continue
+				}
+				c := f.orig
+				if f == chain[0] {
+					c = nb
+				}
+				ops2 = append(ops2, fmt.Sprintf("file %s %d %s %s", c12Kind(f), f.snapNo, vfHexB(c), c12SideTok(f.path)))
+				impl2 = append(impl2, "ok")
+			}
+			ops, impl = ops2, impl2
+			var files2 []*c12File
+			for _, f := range st.files {
+				if f != w {
+					files2 = append(files2, f)
+				}
+			}
+			st.files = files2
+			chain = append([]*c12File{chain[0]}, chain[2:]...)
+		}
+		ops = append(ops, fmt.Sprintf("plan %d", consumed))
+		impl = append(impl, "ok")
+		// corruption while the node is down
+		kind, target := "none", (*c12File)(nil)
+		if r.Chance(70) {
+			target = chain[r.Intn(len(chain))]
+			b, _ := os.ReadFile(target.path)
+			if r.Bool() && len(b) > 40 {
+				b = b[:len(b)-1-r.Intn(30)]
+				kind = "data-truncated"
+			} else {
+				pos := 100 + r.Intn(len(b)-100)
+				b[pos] ^= 1 << uint(r.Intn(8))
+				kind = "data-flip"
+			}
+			os.WriteFile(target.path, b, 0o644)
+			for i, f := range st.files {
+				if f == target {
+					ops = append(ops, fmt.Sprintf("setc %d %s", i, vfHexB(b)))
+					impl = append(impl, "ok")
+				}
+			}
+		}
+		s1, err := NewStore(st.dir)
+		tok := "ok"
+		arg := "x"
+		if err != nil {
+			tok = "err"
+			if !strings.Contains(err.Error(), "CRC32") {
+				arg = "sqlite-refuses" // the checkpoint / integrity check of the plan refused the files
+				rep.Count("resume-refused-by-sqlite")
+			}
+		} else {
+			s1.fatalFn = nil
+			if metas, _ := s1.List(); len(metas) > 0 {
+				b, _ := os.ReadFile(filepath.Join(st.dir, metas[0].ID, dbfileName))
+				arg = vfHexB(b)
+			}
+		}
+		ops = append(ops, "resume "+arg)
+		impl = append(impl, tok)
+		info := map[string]interface{}{"ops": append([]string(nil), ops...), "consumed": consumed, "corruption": kind}
+		rep.Count(fmt.Sprintf("resume-consumed=%d", consumed))
+		rep.Count("resume-corruption=" + kind)
+		rep.Case(strings.Join(ops, ";"), kind != "none")
+		if err == nil {
+			cr := &c12Run{t: t, rep: rep, r: r, root: root, st: st, s: s1}
+			otok, acc, got, _ := cr.open(false)
+			ops = append(ops, "open")
+			impl = append(impl, otok)
+			if kind != "none" {
+				if target.isDb && consumed > 0 {
+					rep.Fail("resumed-reap-cannot-verify-half-checkpointed-database",
+						fmt.Sprintf("%s of the database after the interrupted run had checkpointed a WAL into it: the resumed reap went ahead (restored equals original: %v)", kind, acc && bytes.Equal(got, st.expected)), info)
+				} else {
+					rep.Fail("resumed-reap-consolidated-corrupted-file",
+						fmt.Sprintf("%s of %s present when the node started (consumed=%d): the resumed reap checkpointed it and wrote a fresh checksum (restored equals original: %v)", kind, c12Kind(target), consumed, acc && bytes.Equal(got, st.expected)), info)
+				}
+			} else if !acc || !bytes.Equal(got, st.expected) {
+				rep.Fail("resumed-reap-result-differs-from-original", otok, info)
+			}
+			s1.Close()
+		} else if kind == "none" {
+			rep.Fail("resume-of-intact-store-fails", err.Error(), info)
+		}
+		os.RemoveAll(st.dir)
+		*segOps = append(*segOps, ops)
+		*segImpl = append(*segImpl, impl)
+	}
 }
